@@ -240,8 +240,34 @@ def caliper_rule(cx):
           where=b.file)
 
 
+def advance_rule(cx):
+    """march along the camber ray: the search ends when less than c1 * r of section is left beyond the last circle, and the first jump is c0 * r - the jump
+    stays inside what the end test guaranteed only when c0 <= c1 (a larger first jump puts an end station past the end of the medial axis)"""
+    b = cx.fn('airfoil::camber::advance_search_along_ray')
+    if not b:
+        return
+    R = '(call *InscribedCircle::radius (param last_station))'
+    c1 = None
+    for s, d in cx.rets(b):
+        if d[0] == 'agg' and d[1].endswith('RayAdvance::End'):
+            for a_, p_ in cx.guards(b, s.bb):
+                e = match(f'(lt (sub _ {R}) (mul {R} $c))', a_)
+                if e is not None and p_ and e['c'][0] == 'const':
+                    c1 = e['c'][1]
+    c0 = None
+    for s in b.calls('*SurfacePoint::at_distance'):
+        e = match(f'(mul {R} (phi $c (loop)))', cx.arg(s, 1)) or match(f'(mul {R} (phi $c _))', cx.arg(s, 1))
+        if e is not None and e['c'][0] == 'const':
+            c0 = e['c'][1]
+    ok = isinstance(c0, float) and isinstance(c1, float) and 0.0 < c0 <= c1
+    cx.ob('EXPR', 'advance_search_along_ray:first-jump-within-end-test', ok,
+          'the first jump fraction of the march (initial value of the shrinking step) does not exceed the fraction of the end test: End is returned when less than c1*r is left, otherwise the '
+          'first trial centre c0*r ahead is still short of the farthest section point', where=b.file, found=f'first jump {c0}, end test {c1}')
+
+
 def run_extra(cx):
     caliper_rule(cx)
+    advance_rule(cx)
     from vpa.core import leaves
     # ---------------------------------------------------------------- tolerance provenance
     n = 0
